@@ -39,6 +39,8 @@ FRAGMENTS = {
     "str-nokey": "@string{s", "str-val": "@string{s = ", "comment": "@comment{", "preamble": "@preamble{ p",
     "quoted": "@a{k, t = \"", "braced": "@a{k, t = {", "nofield-eq": "@a{k, t", "nokey-comma": "@a{k", "open": "@a{",
     "quote-brace": "@a{k, t = \"{", "after-field": "@a{k, t = 1", "string-brace": "@string{s = {",
+    # an aborted entry that already completed the fields the following documents use
+    "same-fields": "@a{k, author = 1, note = 2, u = 3",
 }
 
 
